@@ -742,12 +742,16 @@ func c13Valid(c c13Cfg) bool {
 }
 
 func genC13(w *bufio.Writer, rng *hx.Rng, tier string) {
+	// hx.NewRng(n) and hx.NewRng(n+1) produce the same stream shifted by one draw (the state
+	// starts at n*K and every draw adds K): re-seed from the first output so that different
+	// seeds give unrelated streams
+	rng = hx.NewRng(rng.U64())
 	full := tier == "thorough"
 	names := append([]string(nil), c13Plugins...)
 	sort.Strings(names)
 	fmt.Fprintf(w, "c13.registry %d %s\n", len(names), strings.Join(names, " "))
 
-	nRandCfg, nSeqPerCfg, chunk := 40, 5, 14
+	nRandCfg, nSeqPerCfg, chunk := 150, 6, 14
 	if full {
 		nRandCfg, nSeqPerCfg, chunk = 1200, 10, 14
 	}
